@@ -46,6 +46,14 @@ CHECKS = {
         note="Trusted: the virtual loop's fidelity to asyncio's call_at/call_later/call_soon semantics (clock resolution 1e-9); "
              "return values limited to documented 1/0 (+2); exact-boundary callback ends accept both readings.",
         design="3/C15"),
+    "C10": dict(
+        category="exploration",
+        technique="stateful property-based testing (Hypothesis rule-based state machine) against a Python dict model with alias groups",
+        text="Generated histories of create/put (either side, through functions, @, Each, Each-Left)/find/remove/size/each/alias/"
+             "literal-re-evaluation operations run as Klong source; after every step every alias must agree with the dict model "
+             "(lookups, :undefined for absent keys, #d, each-pair multiset). Exploration-level over histories <= 30 steps.",
+        note="Trusted: the dict model; Match-style numeric comparison; d@k not judged (reference defines @ for lists/strings only).",
+        design="3/C10"),
 }
 
 NOT_APPLICABLE = {
